@@ -156,9 +156,18 @@ def build(o, repo, work, witness=False):
             except annotate.AnnotateError as e:
                 return False, "annotate: %s" % e, info
             info.setdefault("annotate", []).append({"file": rel, **st})
+            # the copy's own  #include "x.h"  must still find its siblings
+            inc.append("-I" + os.path.dirname(os.path.join(repo, rel)))
         # annotated copies shadow the originals for #include "..." of whole .c files
         for sub in (o.include_repo or ["src"]):
             inc.append("-I" + os.path.join(ann_dir, sub))
+    for rule in (o.extract or []):
+        import extract
+        try:
+            info.setdefault("extract", []).append(extract.RULES[rule](repo, work))
+        except extract.ExtractError as e:
+            return False, "extract %s: %s" % (rule, e), info
+        inc.append("-I" + os.path.join(work, "gen"))
     for sub in (o.include_repo or ["src"]):
         inc.append("-I" + os.path.join(repo, sub))
     for s in (o.sources or []):
